@@ -760,6 +760,12 @@ def U_M_games():
                     st["entry"] = (PR, 0, [(0.5, idx["focus"]), (0.5, idx["W"])])
                 games.append(dict(rewards=[st[n_][1] for n_ in names], players=[st[n_][0] for n_ in names],
                                   transition_list=[list(st[n_][2]) for n_ in names], final_states=[idx["W"]]))
+    return games
+
+
+def U_M2_games():
+    """tolerance-level false ties: part (b) of U-M, used by C06 only (the other checks cannot get a result from them)"""
+    games = []
     for t in (1e-7, 4e-7):
         for r0 in (0, 1):
             # 0: P1 (a -> 1, ab -> 2); 1: (1-t -> 0, t -> L); 2: (1/2 W, 1/2 L)
